@@ -64,10 +64,10 @@ CheckEv(ob, e, st) ==
          \cup (IF Has(e, "bad") THEN {V("D5", "D5|malformed-message-sent|" \o e.k, FALSE)} ELSE {})
     [] e.e = "recv" ->
          ChkLeaks(e.k, SetOf(e.lk))
-         \cup (IF e.k = "coop_close" /\ e.res # "down" THEN ChkCoopRecv(ob.claim, ob.crashes, ob.faults) ELSE {})
          \cup (IF e.res \notin {"down", "crash"}
                THEN ChkRecv(e.k, IF Has(e, "why") THEN "cancel-id-in-use" ELSE e.k, e.dup, e.res, e.pre, e.to, SetOf(e.sent),
                             IF e.k \in ReqKinds THEN RoleOfReq(e.k) ELSE ob.rec[e.n].role, ob.lossyTo[e.n], ob.crashes \/ ob.faults) ELSE {})
+    [] e.e = "dlv" -> IF e.k = "coop_close" THEN ChkCoopRecv(ob.claim, ob.crashes, ob.faults) ELSE {}     \* the key is in the other node's inbox
     [] e.e = "fault" -> {V("D5", "D5|handler-" \o e.what \o "|" \o e.in, FALSE)}
     [] OTHER -> {}
 RECURSIVE Fold(_, _, _, _)
